@@ -1146,6 +1146,12 @@ def _range_incl_next(ctx, p):
 
 def _iter_stage(kind):
     def f(ctx, it, clos):
+        if not isinstance(it, IterV):
+            # adaptor applied directly to an IntoIterator value (array by value, Vec, Option, Chain result ...)
+            from .models_extra import _as_iter
+            it = _as_iter(ctx, it)
+            if not isinstance(it, IterV):
+                raise Unsupported('%s over an unbounded range' % kind)
         return IterV(it.ents, it.stages + ((kind, clos),), it.count)
     return f
 
